@@ -271,6 +271,12 @@ func (s *LSpec) renderConv(b *strings.Builder, c *LConv) {
 	if c.Defect == "conversion" {
 		fmt.Fprintf(b, "type Bad%s struct{ Unmappable%s chan int }\n", n, n)
 	}
+	if c.Defect == "marker" {
+		fmt.Fprintf(b, "// goverter:converter\ntype Wrong%s struct{ X int }\n", n)
+	}
+	if c.Defect == "load" {
+		fmt.Fprintf(b, "var broken%s int = \"not an int\"\n", n)
+	}
 	b.WriteString("\n")
 }
 
